@@ -51,6 +51,8 @@ def run(tier):
     out.assumptions = ['exception classes: ValueError, KeyError, module-qualified xdvhelp.CustomErr; messages from 7 templates; '
                        'raised directly or from a called helper',
                        'the comparison of the final traceback line under ELLIPSIS is the checker of C05/C06']
+    # random longer programs (5..8 parts) from TLC's simulation mode over the same specification
+    runlib.simulate_replay(out, 'C03_Parts' + ' 5..8 parts', 'C03_Parts', 5, 8, 800 if tier == 'quick' else 15000, extra_check=extra, nontrivial_fn=nontrivial)
     from . import tracelib
     tracelib.traced_replay(out, 'C03_Parts<=1', 'C03_Parts', 1)
     return out.finish()
